@@ -21,34 +21,52 @@ Definition to_sync (a : aaction) : action :=
 Definition is_unsplit_err (a : aaction) : bool :=
   match a with AReplyErr _ _ => true | _ => false end.
 
-Lemma aw_commit_buffered buf0 w o : w_buffered w = true -> aw_commit buf0 w o = w_commit w o.
+Lemma aw_commit_buffered sh buf0 w o : w_buffered w = true -> aw_commit sh buf0 w o = w_commit w o.
 Proof.
-  intro B. unfold aw_commit, w_commit. rewrite B. cbn [negb].
+  intro B. unfold aw_commit, w_commit. rewrite B. cbn [negb]. rewrite andb_false_r.
   destruct (w_kind w); [|reflexivity].
   destruct (w_buf w) as [|x t]; destruct o as [o|]; cbn; try reflexivity.
   destruct (w_buf o); reflexivity.
 Qed.
 
-Lemma aw_commit_virtio buf0 w o : w_kind w = Virtio -> aw_commit buf0 w o = w_commit w o.
+Lemma aw_commit_virtio sh buf0 w o : w_kind w = Virtio -> aw_commit sh buf0 w o = w_commit w o.
 Proof. intro K. unfold aw_commit, w_commit. rewrite K. reflexivity. Qed.
 
-Lemma aperform_err_buffered buf0 w u e after :
-  w_buffered w = true -> aperform_err buf0 w u e after = perform_err w u e after.
+(* with the early return of commit() in place the two commits are the same function *)
+Lemma aw_commit_skips sh buf0 w o : sh_commit_skips sh = true -> aw_commit sh buf0 w o = w_commit w o.
 Proof.
-  intro B. unfold aperform_err, perform_err.
-  destruct (w_write w _) as [[w' p]| |] eqn:E; try reflexivity.
-  destruct (w_write_packets _ _ _ _ E) as [_ [_ [B' _]]].
-  rewrite aw_commit_buffered; [reflexivity | rewrite B'; exact B].
+  intro Sk. destruct (w_buffered w) eqn:B; [apply aw_commit_buffered; exact B|].
+  unfold aw_commit, w_commit. rewrite Sk, B. destruct (w_kind w); reflexivity.
 Qed.
 
-Lemma aperform_err_virtio buf0 w u e after :
-  w_kind w = Virtio -> aperform_err buf0 w u e after = perform_err w u e after.
+Lemma aperform_err_commit_eq sh buf0 w u e after :
+  (forall w' p, w_write w (out_header OUT_HDR (neg32 e) u) = WOk (w', p) -> aw_commit sh buf0 w' None = w_commit w' None) ->
+  aperform_err sh buf0 w u e after = perform_err w u e after.
 Proof.
-  intro K. unfold aperform_err, perform_err.
+  intro H. unfold aperform_err, perform_err.
   destruct (w_write w _) as [[w' p]| |] eqn:E; try reflexivity.
-  destruct (w_write_packets _ _ _ _ E) as [_ [_ [_ [K' _]]]].
-  rewrite aw_commit_virtio; [reflexivity | rewrite K'; exact K].
+  rewrite (H w' p eq_refl). reflexivity.
 Qed.
+
+Lemma aperform_err_buffered sh buf0 w u e after :
+  w_buffered w = true -> aperform_err sh buf0 w u e after = perform_err w u e after.
+Proof.
+  intro B. apply aperform_err_commit_eq. intros w' p E.
+  destruct (w_write_packets _ _ _ _ E) as [_ [_ [B' _]]].
+  apply aw_commit_buffered. rewrite B'; exact B.
+Qed.
+
+Lemma aperform_err_virtio sh buf0 w u e after :
+  w_kind w = Virtio -> aperform_err sh buf0 w u e after = perform_err w u e after.
+Proof.
+  intro K. apply aperform_err_commit_eq. intros w' p E.
+  destruct (w_write_packets _ _ _ _ E) as [_ [_ [_ [K' _]]]].
+  apply aw_commit_virtio. rewrite K'; exact K.
+Qed.
+
+Lemma aperform_err_skips sh buf0 w u e after :
+  sh_commit_skips sh = true -> aperform_err sh buf0 w u e after = perform_err w u e after.
+Proof. intro Sk. apply aperform_err_commit_eq. intros. apply aw_commit_skips. exact Sk. Qed.
 
 Lemma w_write_fresh_small k cap d : cap < blen d -> w_write (fresh k cap) d = WErr.
 Proof.
@@ -69,41 +87,42 @@ Proof.
   destruct d; [congruence | reflexivity].
 Qed.
 
-Lemma aperform_err_small k cap buf0 u e after :
-  cap < 16 -> aperform_err buf0 (fresh k cap) u e after = perform_err (fresh k cap) u e after.
+Lemma aperform_err_small sh k cap buf0 u e after :
+  cap < 16 -> aperform_err sh buf0 (fresh k cap) u e after = perform_err (fresh k cap) u e after.
 Proof.
   intro H. unfold aperform_err, perform_err.
   rewrite w_write_fresh_small; [reflexivity|]. rewrite out_header_len. exact H.
 Qed.
 
 (* the stale second write, exactly: an error reply on a fresh fusedev writer with room for a header *)
-Lemma aperform_err_fusedev_stale cap buf0 u e :
-  16 <= cap ->
-  o_packets (aperform_err buf0 (fresh FuseDev cap) u e None) =
+Lemma aperform_err_fusedev_stale sh cap buf0 u e :
+  sh_commit_skips sh = false -> 16 <= cap ->
+  o_packets (aperform_err sh buf0 (fresh FuseDev cap) u e None) =
   [out_header OUT_HDR (neg32 e) u; firstn 16 buf0].
 Proof.
-  intro H. unfold aperform_err.
+  intros Sk H. unfold aperform_err.
   set (hb := out_header OUT_HDR (neg32 e) u).
   assert (L : List.length hb = 16%nat) by apply out_header_length.
   assert (Hne : hb <> []) by (intro X; rewrite X in L; discriminate L).
   assert (W := w_write_fresh_fusedev cap hb Hne).
   rewrite W by (unfold blen; rewrite L; cbn; lia).
-  cbn [o_packets out_ok]. unfold aw_commit. cbn [w_kind w_buffered w_buf]. rewrite L.
+  cbn [o_packets out_ok]. unfold aw_commit. cbn [w_kind w_buffered w_buf]. rewrite Sk. cbn [andb]. rewrite L.
   destruct hb; [discriminate L|]. cbn [app]. rewrite app_nil_r. reflexivity.
 Qed.
 
-Theorem aperform_eq k cap buf0 u a :
-  k = Virtio \/ is_unsplit_err a = false \/ cap < 16 ->
-  async_perform k cap buf0 u a = perform k cap u (to_sync a).
+Theorem aperform_eq sh k cap buf0 u a :
+  k = Virtio \/ is_unsplit_err a = false \/ cap < 16 \/ sh_commit_skips sh = true ->
+  async_perform sh k cap buf0 u a = perform k cap u (to_sync a).
 Proof.
   intro H. destruct a as [a'|body|e after|data|e]; cbn [to_sync].
   - reflexivity.
   - reflexivity.
   - unfold async_perform, perform.
-    destruct H as [->|[H|H]].
+    destruct H as [->|[H|[H|H]]].
     + apply aperform_err_virtio. reflexivity.
     + discriminate H.
     + apply aperform_err_small. exact H.
+    + apply aperform_err_skips. exact H.
   - unfold async_perform, perform.
     destruct (w_split (fresh k cap) OUT_HDR) as [[w1 w2]|] eqn:S; [|reflexivity].
     destruct (w_split_buffered _ _ _ _ S) as [B1 B2].
@@ -118,7 +137,7 @@ Proof.
 Qed.
 
 (* consequences for the async path alone (the C01 facts carry over wherever the helpers agree) *)
-Lemma async_perform_no_panic k cap buf0 u a : o_panic (async_perform k cap buf0 u a) = false.
+Lemma async_perform_no_panic sh k cap buf0 u a : o_panic (async_perform sh k cap buf0 u a) = false.
 Proof.
   destruct a as [a'|body|e after|data|e].
   - apply perform_no_panic.
